@@ -44,6 +44,8 @@ pub fn run_vectors() -> Vec<Vec<usize>> {
 }
 
 const NAMES_ASCII: &[&str] = &["chr1", "chr10", "chr2", "chrX"];
+/// grouped, but the runs are not in name order (legal with sort type START; the index must still be in file order)
+const NAMES_REV: &[&str] = &["chrX", "chr2", "chr10", "chr1"];
 const NAMES_MB: &[&str] = &["a", "chr\u{e9}", "\u{e9}", "\u{3b1}\u{3b2}\u{3b3}"];
 
 /// Build a grouped bedGraph text. `long_at`: index of the line that is made very long
@@ -106,7 +108,7 @@ fn parallel_write(path: &Path, idx: Vec<(u64, String)>, sizes: HashMap<String, u
     (cr, sink.bytes())
 }
 
-fn serial_write(path: &Path, sizes: HashMap<String, u32>) -> (CallResult, Vec<u8>) {
+fn serial_write(path: &Path, sizes: HashMap<String, u32>, allow_ooo: bool) -> (CallResult, Vec<u8>) {
     let sink = MemSink::new();
     let s2 = sink.clone();
     let p = path.to_path_buf();
@@ -114,8 +116,9 @@ fn serial_write(path: &Path, sizes: HashMap<String, u32>) -> (CallResult, Vec<u8
         let rt = wr::make_runtime(2);
         let mut w = BigWigWrite::new(s2, sizes);
         w.options.inmemory = true;
+        w.options.input_sort_type = if allow_ooo { bigtools::InputSortType::START } else { bigtools::InputSortType::ALL };
         let f = std::fs::File::open(&p).map_err(|e| e.to_string())?;
-        w.write(bigtools::beddata::BedParserStreamingIterator::from_bedgraph_file(f, false), rt).map_err(|e| e.to_string())
+        w.write(bigtools::beddata::BedParserStreamingIterator::from_bedgraph_file(f, allow_ooo), rt).map_err(|e| e.to_string())
     });
     let cr = match r {
         Ok(Ok(())) => CallResult::Ok,
@@ -143,7 +146,7 @@ pub fn c18i(ctx: &Ctx, begin: &mut dyn FnMut(J)) -> Outcome {
     let path = wr::scratch_file(&ctx.scratch, "bedGraph");
     let total_lines: usize = runs.iter().sum();
     let mut files = 0u64;
-    for (nameset, names) in [("ascii", NAMES_ASCII), ("multibyte", NAMES_MB)] {
+    for (nameset, names) in [("ascii", NAMES_ASCII), ("multibyte", NAMES_MB), ("ascii_runs_not_in_name_order", NAMES_REV)] {
         let mut patterns: Vec<(Option<usize>, usize, bool, String)> = vec![(None, 34, false, "uniform".into()), (None, 34, true, "mixed".into())];
         for l in 0..total_lines {
             // classify where the long line sits
@@ -194,8 +197,9 @@ pub fn c18i(ctx: &Ctx, begin: &mut dyn FnMut(J)) -> Outcome {
                         } else if long_at.is_none() || long_at == Some(0) {
                             // end-to-end: parallel source fed with the returned index == serial source
                             let sizes = sizes_for(names);
-                            let (pr, pb) = parallel_write(&path, idx, sizes.clone(), false);
-                            let (sr, sb) = serial_write(&path, sizes);
+                            let ooo = nameset == "ascii_runs_not_in_name_order";
+                            let (pr, pb) = parallel_write(&path, idx, sizes.clone(), ooo);
+                            let (sr, sb) = serial_write(&path, sizes, ooo);
                             out.count("end_to_end_comparisons", 1);
                             match (&pr, &sr) {
                                 (CallResult::Ok, CallResult::Ok) => {
